@@ -127,8 +127,11 @@ fn load_known(verif: &Path) -> KnownFile {
 }
 
 fn is_known<'a>(known: &'a KnownFile, v: &Violation) -> Option<&'a KnownFinding> {
+	// a listed field "*" matches anything: a finding may be identified by its call site
+	// (oracle, op, argument class) alone, or down to the class of the state it fails in
 	let sig = v.signature.as_ref()?;
-	known.findings.iter().find(|k| k.property == v.property && &k.signature == sig)
+	let m = |k: &str, x: &str| k == "*" || k == x;
+	known.findings.iter().find(|k| k.property == v.property && m(&k.signature.oracle, &sig.oracle) && m(&k.signature.op, &sig.op) && m(&k.signature.pre, &sig.pre) && m(&k.signature.arg, &sig.arg))
 }
 
 fn dhash<T: Hash>(t: &T) -> u64 {
